@@ -599,6 +599,27 @@ pub fn boundary_packets() -> Vec<Vec<u8>> {
             }
         }
     }
+    // a name made of labels filling exactly T bytes (T = 240..258), then the first byte of a pointer as the last byte
+    // of the buffer, a complete pointer, and a pointer followed by the question's fixed part
+    for total in 240usize..=258 {
+        let mut nm = vec![];
+        let mut left = total;
+        while left > 0 {
+            let ll = (left - 1).min(63);
+            if ll == 0 {
+                break;
+            }
+            nm.push(ll as u8);
+            nm.extend(vec![b'k'; ll]);
+            left -= ll + 1;
+        }
+        for tail in [vec![0xc0u8], vec![0xc0, 0x00], vec![0xc0, 0x00, 0, 1, 0, 1], vec![0xc0, 12, 0, 1, 0, 1]] {
+            let mut p = header(21, 0x0000, 1, 0, 0, 0);
+            p.extend(&nm);
+            p.extend(&tail);
+            out.push(p);
+        }
+    }
     for w in wide_packets(false) {
         out.push(w);
     }
@@ -864,6 +885,36 @@ pub fn big_packets() -> Vec<Vec<u8>> {
         for _ in 0..present {
             rr(&mut p, &[0], 999, 0, &[]);
         }
+        out.push(p);
+    }
+    out
+}
+
+/// Packets longer than 64 KiB (as a TCP peer or a caller can hand over) whose last records start around offset 65536:
+/// names there use pointers to the question, to an earlier owner, and literal labels.
+pub fn beyond_64k_packets() -> Vec<Vec<u8>> {
+    let mut out = vec![];
+    for at in [65520usize, 65534, 65535, 65536, 65537, 65540, 65548, 65549, 65550, 65566, 66000] {
+        let mut p = header(25, 0x8180, 1, 0, 0, 0);
+        question(&mut p, &[1, b'q', 2, b'e', b'x', 0], 1);
+        let mut count = 0u16;
+        // opaque fillers of at most 60 000 bytes each, the last one sized so that the next record starts at `at`
+        while p.len() + 13 + 60000 + 13 < at {
+            rr(&mut p, &[1, b'f', 0], 16, 1, &vec![b'x'; 60000]);
+            count += 1;
+        }
+        let body = at - p.len() - 13;
+        rr(&mut p, &[1, b'f', 0], 16, 1, &vec![b'y'; body]);
+        count += 1;
+        assert_eq!(p.len(), at);
+        let first = p.len();
+        rr(&mut p, &ptr(12), 1, 5, &[1, 2, 3, 4]);                       // owner: pointer to the question
+        rr(&mut p, &[1, b'w', 0xc0, 14], 2, 6, &ptr(12));                // owner: label + pointer, data: pointer
+        rr(&mut p, &[3, b'l', b'i', b't', 0], 15, 7, &[0, 1, 0xc0, 12]); // literal owner, MX exchange by pointer
+        count += 3;
+        let _ = first;
+        p[6] = (count >> 8) as u8;
+        p[7] = count as u8;
         out.push(p);
     }
     out
